@@ -194,6 +194,7 @@ class Ctx:
         self.rule = ""
         self.exhaustive = None
         self.determinism: list = []
+        self.nondeterministic: list = []
         self._pool = None
         self.t0 = time.time()
 
@@ -241,7 +242,11 @@ class Ctx:
                 same = a1.fingerprint() == a2.fingerprint()
                 self.determinism.append({"item": jsonable(it) if len(repr(it)) < 300 else h(it), "identical": same})
                 if not same:
-                    raise HarnessError(f"non-deterministic execution for item {it!r} of {modname}.{fname}")
+                    # Either the harness is not deterministic, or the code under test keeps state across executions
+                    # (a process-wide cache ...) - which the checks may well have reported as violations already.
+                    # finish() decides: with violations the verdict is reported (exit 1); without, this is a harness
+                    # error (exit 2) exactly as before - a silent "ok" is never printed after a failed re-run.
+                    self.nondeterministic.append(f"non-deterministic execution for item {it!r} of {modname}.{fname}"[:400])
         return out
 
     def close(self):
@@ -338,6 +343,10 @@ def finish(ctx: Ctx, level: str) -> int:
         "wall_s": round(time.time() - ctx.t0, 2),
         "violations": n_viol,
     }
+    if ctx.nondeterministic:
+        if n_viol == 0:
+            raise HarnessError(ctx.nondeterministic[0])
+        cov["notes"] = list(cov.get("notes", [])) + ["re-execution of an item differed: " + x for x in ctx.nondeterministic]
     os.makedirs(os.path.join(ROOT, "evidence"), exist_ok=True)
     evp = os.path.join(ROOT, "evidence", f"{pid}.json")
     with open(evp, "w") as f:
